@@ -90,7 +90,7 @@ theorem retrieveReturned_conn (w : World) (p a b : Nat) (cn' : Conn)
   | some P => rw [hP] at h; exact retrieveFrom_conn w p P.conns a b cn' h
 
 /-- what `deliver_offset` does to a connection -/
-theorem deliverTo_conn (w : World) (p s ch q a b : Nat) (cn' : Conn)
+theorem deliverTo_connB (w : World) (p s ch q a b : Nat) (cn' : Conn)
     (h : getC (deliverTo w p s ch q).1 a b = some cn') :
     ∃ cn, getC w a b = some cn ∧ cn'.sAtt = cn.sAtt ∧
       (∀ y, cn'.used.getD y false = true → (a = p ∧ b = s ∧ y = ch) ∨ cn.used.getD y false = true) := by
@@ -126,7 +126,7 @@ theorem deliverTo_conn (w : World) (p s ch q a b : Nat) (cn' : Conn)
       · rw [if_neg hab] at key
         exact ⟨cn', key, rfl, fun _ hy => Or.inr hy⟩
 
-theorem InvAB.deliverTo (h : InvAB cfg np ns fl w) {p s ch q i : Nat} {P : Pub}
+theorem invAB_deliverTo (h : InvAB cfg np ns fl w) {p s ch q i : Nat} {P : Pub}
     (hP : getP w p = some P) (hex : P.ex = true) (hi : P.conns[i]? = some (some s))
     (hch : ∀ c, getC w p s = some c → c.used.getD ch false = false) (hchn : ch < P.n)
     (hrc1 : 1 ≤ P.rc.getD ch 0) (hnp : ¬ Pinned fl p P ch)
@@ -148,7 +148,7 @@ theorem InvB.hist_chunk (h : InvB fl w) {p : Nat} {P : Pub} (hP : getP w p = som
   have := filter_length_pos (q := fun e => decide (e = ch)) hm (by simp)
   omega
 
-theorem InvAB.deliverHistory (h : InvAB cfg np ns fl w) (p s : Nat) (l : List Nat) {i : Nat} {P : Pub}
+theorem invAB_deliverHistory (h : InvAB cfg np ns fl w) (p s : Nat) (l : List Nat) {i : Nat} {P : Pub}
     (hP : getP w p = some P) (hex : P.ex = true) (hi : P.conns[i]? = some (some s))
     (hl : ∀ ch ∈ l, ch ∈ P.hist) (hnd : l.Nodup)
     (hbits : ∀ c, getC w p s = some c → ∀ ch ∈ l, c.used.getD ch false = false) :
@@ -161,18 +161,20 @@ theorem InvAB.deliverHistory (h : InvAB cfg np ns fl w) (p s : Nat) (l : List Na
     obtain ⟨P1, hP1, st1⟩ := f1.psome p P hP
     have hi1 : P1.conns[i]? = some (some s) := by rw [c1 P P1 hP hP1]; exact hi
     have hex1 : P1.ex = true := st1.ex ▸ hex
-    have h1 := h.retrieveReturned p (fun Q hQ => by rw [hP] at hQ; cases hQ; exact hex)
+    have h1 := invAB_retrieveReturned h p (fun Q hQ => by rw [hP] at hQ; cases hQ; exact hex)
     have hbits1 : ∀ c, getC (retrieveReturned w p) p s = some c → ∀ x ∈ ch :: r, c.used.getD x false = false := by
       intro c hc x hx
       obtain ⟨c0, h0, _, _, e3⟩ := retrieveReturned_conn w p p s c hc
       cases hh : c.used.getD x false with
       | false => rfl
-      | true => rw [hbits c0 h0 x hx] at *; exact absurd (e3 x hh) (by simp)
+      | true =>
+        have := e3 x hh
+        rw [hbits c0 h0 x hx] at this; cases this
     have hch : ch ∈ P1.hist := by rw [st1.hist]; exact hl ch (by simp)
     obtain ⟨g1, g2, g3, g4⟩ := h1.b.hist_chunk hP1 hex1 hch
     have hq : histSeq (retrieveReturned w p) p ch = P1.chunkSeq.getD ch 0 := by
       unfold histSeq; rw [hP1]
-    have h2 := h1.deliverTo (q := histSeq (retrieveReturned w p) p ch) hP1 hex1 hi1
+    have h2 := invAB_deliverTo h1 (q := histSeq (retrieveReturned w p) p ch) hP1 hex1 hi1
       (fun c hc => hbits1 c hc ch (by simp)) g1 g2 g3 (by rw [hq]; exact g4)
     obtain ⟨f2, c2⟩ := deliverTo_frame (retrieveReturned w p) p s ch (histSeq (retrieveReturned w p) p ch)
     obtain ⟨P2, hP2, st2⟩ := f2.psome p P1 hP1
@@ -180,7 +182,7 @@ theorem InvAB.deliverHistory (h : InvAB cfg np ns fl w) (p s : Nat) (l : List Na
     refine ih h2 hP2 (by rw [st2.ex]; exact hex1) (by rw [c2 P1 P2 hP1 hP2]; exact hi1)
       (fun x hx => by rw [st2.hist, st1.hist]; exact hl x (List.mem_cons_of_mem _ hx)) hnd' ?_
     intro c hc x hx
-    obtain ⟨c0, h0, _, e3⟩ := deliverTo_conn _ p s ch _ p s c hc
+    obtain ⟨c0, h0, _, e3⟩ := deliverTo_connB _ p s ch _ p s c hc
     cases hh : c.used.getD x false with
     | false => rfl
     | true =>
